@@ -16,6 +16,7 @@ func init() {
 	zzsv.Register("ZZ_C08_Holes", ZZ_C08_Holes)
 	zzsv.Register("ZZ_C08_RegexpBodies", ZZ_C08_RegexpBodies)
 	zzsv.Register("ZZ_C08_RuntimeFaults", ZZ_C08_RuntimeFaults)
+	zzsv.Register("ZZ_C08_ConstantFaults", ZZ_C08_ConstantFaults)
 	zzsv.Register("ZZ_C08_OddObjects", ZZ_C08_OddObjects)
 }
 
@@ -326,4 +327,63 @@ func ZZ_C08_OddObjects(sv *zzsv.T) {
 		sv.Observe("after", v, berr != nil)
 	})
 	sv.Assert("C08.object.nopanic", ok)
+}
+
+var zzConstFaults = []string{
+	"return 7001 / 7002;",
+	"return 7001 % 7002;",
+	"return 7 % (7001 - 7002);",
+	"return 7 / (7001 - 7002);",
+	"function f() { return 7001 % 7002; } return 1;",
+	"function f() { return 7001 / (7002 - 7001); } return f();",
+	"if (7001 % 7002 == 0) { return 1; } return 2;",
+	"return [1, 2, 3][7001 - 7002];",
+	"return \"héllo\"[7001 - 7002];",
+	"return (7001 - 7002)..7001;",
+	"return √(7001 - 7002);",
+	"return -(7001 % 7002);",
+	"x = 7001; x /= 7002; return x;",
+	"return 7001 % 7002 % 7001;",
+	"return (7001 == 7002) % (7002 == 7001);",
+	"return 1.5 % (7001 - 7002);",
+	"return 7001 ** (7002 - 7001);",
+}
+
+// ZZ_C08_ConstantFaults: the same run-time faults spelled with literals, so
+// that whatever is computed from constants while the script is being
+// prepared (folding by the optimizer, pooling) meets the faulting operands
+// there: Prepare, Execute and Run return - with an error or a value - for
+// every value of the literals (symbolic in [0, 70000] at AST level).
+func ZZ_C08_ConstantFaults(sv *zzsv.T) {
+	src := zzConstFaults[sv.Choice("script", len(zzConstFaults))]
+	sv.Note("script", src+"   (7001, 7002 are symbolic literals)")
+	a := sv.Int64("L1")
+	b := sv.Int64("L2")
+	sv.Assume(a >= 0 && a <= 70000 && b >= 0 && b <= 70000)
+	if src == "return (7001 - 7002)..7001;" {
+		sv.Assume(b < 4) // the range has b+1 elements
+	}
+	if src == "return 7001 ** (7002 - 7001);" {
+		sv.Assume(a <= 3 && b <= 6)
+	}
+	opt := sv.Choice("noopt", 2) == 0
+	ok := zzNoPanic(func() {
+		prog, pok := zzParseWithLits(sv, src, []int64{a, b})
+		if !pok {
+			return
+		}
+		e := New(src)
+		if zzPrepareAST(e, prog, opt) != nil {
+			sv.Observe("prepare", "error")
+			return
+		}
+		out, err := e.Execute(nil)
+		sv.Observe("execute", err != nil)
+		if err == nil {
+			sv.Assert("C08.constfault.result_not_nil", out != nil)
+		}
+		_, rerr := e.Run(nil)
+		sv.Observe("run", rerr != nil)
+	})
+	sv.Assert("C08.constfault.nopanic", ok)
 }
